@@ -33,10 +33,9 @@ class SCSICommand(metaclass=ExMETA):
         :param dataout_alloclen: integer representing the size of the data_out buffer
         :param datain_alloclen: integer representing the size of the data_in buffer
         """
-        # we need the _cdb_bits and _cdb values in staticmethods so we have to set it
-        # on the class and not on the instance of the class. that might be wrong ...
-        SCSICommand._cdb_bits = self._cdb_bits
-        SCSICommand._cdb = SCSICommand.init_cdb(opcode)
+        # the cdb layout (_cdb_bits) belongs to the command class; marshall_cdb and
+        # unmarshall_cdb are classmethods, nothing is shared between command classes.
+        self._cdb = SCSICommand.init_cdb(opcode)
         self.dataout = bytearray(dataout_alloclen)
         self.datain = bytearray(datain_alloclen)
         self.result = {}
@@ -217,20 +216,51 @@ class SCSICommand(metaclass=ExMETA):
         for b in self._cdb:
             print("0x%02X " % b)
 
-    @staticmethod
-    def marshall_cdb(cdb):
+    @classmethod
+    def _cdb_length(cls, cdb):
+        """
+        length of the cdb of this command class: given by the group code of the
+        operation code when the dict carries one, otherwise the smallest fixed cdb
+        length that holds every field of the class
+
+        :param cdb: a dict with key:value pairs representing a code descriptor block
+        :return: the length in bytes
+        """
+        if "opcode" in cdb:
+            value = cdb["opcode"]
+            if 0x00 <= value <= 0x1F:
+                return 6
+            if 0x20 <= value <= 0x5F:
+                return 10
+            if 0x80 <= value <= 0x9F:
+                return 16
+            if 0xA0 <= value <= 0xBF:
+                return 12
+            raise cls.OpcodeException
+        extent = 1
+        for val in cls._cdb_bits.values():
+            if len(val) == 2:
+                _num, _bm = 1, val[0]
+                while _bm > 0xFF:
+                    _bm >>= 8
+                    _num += 1
+                extent = max(extent, val[1] + _num)
+        return min(n for n in (6, 10, 12, 16) if n >= extent)
+
+    @classmethod
+    def marshall_cdb(cls, cdb):
         """
         Marshall an SCSICommand cdb
 
         :param cdb: a dict with key:value pairs representing a code descriptor block
         :return result: a byte array representing a code descriptor block
         """
-        result = bytearray(len(SCSICommand._cdb))
-        encode_dict(cdb, SCSICommand._cdb_bits, result)
+        result = bytearray(cls._cdb_length(cdb))
+        encode_dict(cdb, cls._cdb_bits, result)
         return result
 
-    @staticmethod
-    def unmarshall_cdb(cdb):
+    @classmethod
+    def unmarshall_cdb(cls, cdb):
         """
         Unmarshall an SCSICommand cdb
 
@@ -238,7 +268,7 @@ class SCSICommand(metaclass=ExMETA):
         :return result: a dict
         """
         result = {}
-        decode_bits(cdb, SCSICommand._cdb_bits, result)
+        decode_bits(cdb, cls._cdb_bits, result)
         return result
 
     def build_cdb(self, **kwargs):
@@ -249,7 +279,9 @@ class SCSICommand(metaclass=ExMETA):
         :return: a byte array representing a code descriptor block
         """
         cdb = {key: kwargs[key] for key in kwargs.keys()}
-        return SCSICommand.marshall_cdb(cdb)
+        result = bytearray(len(self._cdb))
+        encode_dict(cdb, self._cdb_bits, result)
+        return result
 
     def unmarshall(self, **kwargs):
         """
